@@ -1,0 +1,12 @@
+//go:build verif
+
+// Contracts for govc (the /verif contract verifier). Comment-only: with the build tag off this file is not
+// compiled, with it on it adds no code.
+package csv
+
+// C24 kernel: every cell value the CSV reader produces fits the column's inferred type: an Int / Float / Boolean /
+// Time / String / NULL value is produced only when that primitive type `Is` the column type.
+//@ spec cellFits(v Value, t Type) bool = (v.TypeID == 0 ==> rel(Null, t) == 2) && (v.TypeID == 1 ==> rel(Int, t) == 2) && (v.TypeID == 2 ==> rel(Float, t) == 2) && (v.TypeID == 3 ==> rel(Boolean, t) == 2) && (v.TypeID == 4 ==> rel(String, t) == 2) && (v.TypeID == 5 ==> rel(Time, t) == 2) && v.TypeID <= 5
+//@ func (*DatasourceExecuting).Run
+//@   assumes validT(Null) && validT(Int) && validT(Float) && validT(Boolean) && validT(String) && validT(Time) && forall(q, 0, len(d.fields), validT(d.fields[q].Type))
+//@   loop 4 step cell: cellFits(values[i], d.fields[i].Type)
